@@ -250,8 +250,10 @@ func H_C07_subquery() {
 // (cte.column) and a three-stage chain.
 func H_C07_shapes() {
 	n := verif.Choose("rows", maxRows(2, 3)+1)
-	form := verif.Choose("form", 4)
+	form := verif.Choose("form", 7)
 	doc, rows := numTable(n, "a", "b")
+	// a document key with the name the CTEs use: the CTE shadows it
+	doc["m"] = []any{Map{"a": float64(100), "b": float64(7)}}
 	c := verif.F64("c")
 	staged, err := runQueryQuiet(Map{"t": copyRows(rows)}, verif.SQL("SELECT a, b FROM t WHERE a > ?", c))
 	verif.Assert(err == nil, "staged-inner-ok")
@@ -273,6 +275,16 @@ func H_C07_shapes() {
 	case 3:
 		sql = "WITH m AS (SELECT a, b FROM t WHERE a > ?) SELECT x.a AS a, y.b AS b FROM m x JOIN m y ON x.a = y.a"
 		stagedSQL = "SELECT x.a AS a, y.b AS b FROM m x JOIN m y ON x.a = y.a"
+	case 4:
+		sql = "WITH m AS (SELECT a, b FROM t WHERE a > ?) SELECT a FROM m"
+		stagedSQL = "SELECT a FROM m"
+	case 5:
+		// the innermost definition of a name wins
+		sql = "WITH k AS (SELECT a FROM t) SELECT x.a AS a FROM (WITH k AS (SELECT a, b FROM t WHERE a > ?) SELECT a FROM k) x"
+		stagedSQL = "SELECT a FROM m"
+	case 6:
+		sql = "SELECT x.a AS a FROM (WITH m AS (SELECT a, b FROM t WHERE a > ?) SELECT a FROM m) x"
+		stagedSQL = "SELECT a FROM m"
 	}
 	got, gerr := runQueryQuiet(doc, verif.SQL(sql, c))
 	if form == 1 {
